@@ -115,6 +115,9 @@ func encodeFixedLengthFormat(ctx context.Context, fp io.Writer, view *View, opti
 
 			fields := make([]fixedlen.Field, fieldLen)
 			for i := range view.Header {
+				if err := checkFixedLengthContents(view.Header[i].Column); err != nil {
+					return err
+				}
 				fields[i] = fixedlen.NewField(view.Header[i].Column, text.NotAligned)
 			}
 			fieldList[0] = fields
@@ -129,6 +132,9 @@ func encodeFixedLengthFormat(ctx context.Context, fp io.Writer, view *View, opti
 			fields := make([]fixedlen.Field, fieldLen)
 			for j := range view.RecordSet[i] {
 				str, _, a := ConvertFieldContents(view.RecordSet[i][j][0], false, options.ScientificNotation)
+				if err := checkFixedLengthContents(str); err != nil {
+					return err
+				}
 				fields[j] = fixedlen.NewField(str, a)
 			}
 			fieldList[i+recordStartPos] = fields
@@ -169,6 +175,9 @@ func encodeFixedLengthFormat(ctx context.Context, fp io.Writer, view *View, opti
 			}
 		} else if !options.SingleLine {
 			for i := range view.Header {
+				if err := checkFixedLengthContents(view.Header[i].Column); err != nil {
+					return err
+				}
 				fields[i] = fixedlen.NewField(view.Header[i].Column, text.NotAligned)
 			}
 			if err := w.Write(fields); err != nil {
@@ -183,6 +192,9 @@ func encodeFixedLengthFormat(ctx context.Context, fp io.Writer, view *View, opti
 
 			for j := range view.RecordSet[i] {
 				str, _, a := ConvertFieldContents(view.RecordSet[i][j][0], false, options.ScientificNotation)
+				if err := checkFixedLengthContents(str); err != nil {
+					return err
+				}
 				fields[j] = fixedlen.NewField(str, a)
 			}
 			if err := w.Write(fields); err != nil {
@@ -192,6 +204,15 @@ func encodeFixedLengthFormat(ctx context.Context, fp io.Writer, view *View, opti
 		if err = w.Flush(); err != nil {
 			return NewSystemError(err.Error())
 		}
+	}
+	return nil
+}
+
+// checkFixedLengthContents refuses a text that cannot be read back from a fixed-length format. The format has
+// no way to enclose or escape a value, so a line break in a value ends the record, in single-line mode as well.
+func checkFixedLengthContents(s string) error {
+	if strings.ContainsAny(s, "\r\n") {
+		return NewDataEncodingError(fmt.Sprintf("value contains a line break: %q in fixed-length format", s))
 	}
 	return nil
 }
